@@ -7,7 +7,7 @@ ID = 'C17'
 LEVEL = 'proof'
 CONTRACTS = ['contracts.explainer', 'contracts.batch']
 _F = {'fault_mode': True}
-_CL = ['estimates_untouched', 'inv:Eff']
+_CL = ['estimates_untouched', 'inv:Eff', 'fault_propagates']
 CLOSURE = [
     {'fn': 'IncrementalPFI.explain_one', 'opts': _F, 'clauses': _CL, 'safety': False, 'tag': 'faults'},
     {'fn': 'IncrementalSage.explain_one', 'opts': _F, 'clauses': _CL, 'safety': False, 'tag': 'faults'},
@@ -45,7 +45,7 @@ class _Faulty:
     def __call__(self, *a, **kw):
         self.ctl['n'] += 1
         if self.ctl['n'] == self.ctl['k']:
-            raise _Boom(f"fault at callback #{self.ctl['n']}")
+            raise self.ctl.get('exc', _Boom)(f"fault at callback #{self.ctl['n']}")
         return self.f(*a, **kw)
 
 
@@ -105,8 +105,9 @@ def BOUNDED(tier, seed):
         before = ctl['n']
         ex.explain_one(*stream[2], **kw)
         total = ctl['n'] - before
-        for k in range(1, total + 1):
-            ctl = {'n': 0, 'k': -1}
+        # "a failing callback" may raise ANY exception: an own class and the common built-in ones
+        for k, exc in [(k, e) for k in range(1, total + 1) for e in (_Boom, ValueError, KeyError, ZeroDivisionError, RuntimeError)]:
+            ctl = {'n': 0, 'k': -1, 'exc': exc}
             ex = build(cname, ctl)
             random.seed(seed)
             for x, y in stream[:2]:
@@ -114,12 +115,13 @@ def BOUNDED(tier, seed):
             st0 = _state(ex)
             ctl['k'] = ctl['n'] + k
             evals += 1
-            distinct.add((cname, k))
+            distinct.add((cname, k, exc.__name__))
             try:
                 ex.explain_one(*stream[2], **kw)
-                fails.append({'key': f'swallowed_{cname}', 'summary': f'{cname}: fault at callback {k}/{total} did not propagate'})
+                fails.append({'key': f'swallowed_{cname}', 'summary': f'{cname}: a {exc.__name__} raised at callback {k}/{total} did not propagate',
+                              'explainer': cname, 'fault_position': k})
                 continue
-            except _Boom:
+            except exc:
                 pass
             st1 = _state(ex)
             if st0 != st1:
@@ -134,7 +136,8 @@ def BOUNDED(tier, seed):
                 if abs(sum(ex.importance_values.values()) - ex.explained_loss) > 1e-9:
                     fails.append({'key': 'efficiency_after_fault', 'summary': f'IncrementalSage: efficiency broken after a fault at callback {k}'})
     return [{'name': 'fault_injection_runtime', 'evaluations': evals, 'distinct_nontrivial': len(distinct),
-             'rule': 'for each explainer: a fault at every k-th callback invocation (model, loss, storage.update) of the 3rd explain_one call; '
+             'rule': 'for each explainer: a fault (own exception class, ValueError, KeyError, ZeroDivisionError, RuntimeError) at every k-th callback '
+                     'invocation (model, loss, storage.update) of the 3rd explain_one call: it must propagate; '
                      'estimates compared before/after; IncrementalSage continues the stream and re-checks efficiency; distinct = (explainer, k)',
              'bound': '5 observations, 2 features, n_inner = 2', 'failures': fails}]
 
